@@ -607,6 +607,62 @@ def _fit_contract(tag, nseg, inplace):
             ok = ok and res.attrs['_opd'].cell is not env['self'].attrs['_opd'].cell \
                 and res.attrs['tilt'] is not env['self'].attrs['tilt']
         return ok
+
+    @c.post('removed_ramp_is_the_recorded_tilt')
+    def _(ctx, env0, env, out):
+        """C04: what fit_tilt takes out of the OPD is exactly the ramp its recorded Tilt stands for, and the
+        fit is the least-squares problem with piston, x-ramp and y-ramp columns over the segment mask:
+        new_opd + mask_k * (x_k * r * ps_row - y_k * c * ps_col) summed over segments = old_opd * (sum of masks),
+        (r, c) = index - floor(n/2); lstsq itself is abstract (its solution is whatever numpy returns)."""
+        if getattr(ctx, 'replaying', False):
+            return None
+        res, p0 = out.value, env0['self']
+        opd0, mask = p0.attrs['_opd'], p0.attrs['_mask']
+        n_, m_ = opd0.shape
+        if ctx.branch(S.and_(S.eq(n_, 1), S.eq(m_, 1))):
+            return None
+        ps = p0.attrs['_pixelscale']
+        calls = ctx.__dict__.get('ghost_lstsq_calls', [])
+        name = 'plane.Plane.fit_tilt::%%s[%s]' % tag
+        ctx.oblige(name % 'one_least_squares_fit_per_segment', len(calls) == nseg, info={'calls': len(calls)})
+        if len(calls) != nseg:
+            return None
+        before = len(p0.attrs['tilt'].items)
+        new = res.attrs['tilt'].items[before:]
+        i, j = ints(ctx, 'i', 'j')
+        inr = [i >= 0, i < S.z(n_), j >= 0, j < S.z(m_)]
+        r = S.sub(i, S.floordiv(n_, 2))
+        cc = S.sub(j, S.floordiv(m_, 2))
+        flat = S.add(S.mul(i, m_), j)
+        from lvc.prove import with_hyp
+        total_ramp = 0
+        for k in range(nseg):
+            mk = mask.at((i, j)) if mask.ndim == 2 else mask.at((k, i, j))
+            A_, b_, x_ = calls[k]['A'], calls[k]['b'], calls[k]['x']
+            # design matrix: piston, row ramp, column ramp (negative), each times the segment mask; rhs: the OPD
+            with_hyp(ctx, inr, lambda A_=A_, b_=b_, mk=mk, k=k: ctx.oblige(
+                name % ('least_squares_problem_is_piston_x_y_over_the_mask[seg %d]' % k),
+                S.and_(S.eq(A_.shape[1], 3), S.eq(A_.at((flat, 0)), mk),
+                       S.eq(A_.at((flat, 1)), S.mul(S.mul(r, ps[0]), mk)),
+                       S.eq(A_.at((flat, 2)), S.mul(S.mul(S.neg(cc), ps[1]), mk)),
+                       S.eq(b_.at((flat,)), opd0.at((i, j))))))
+            t = new[k]
+            # Tilt(x=a, y=b) keeps its x angle in .y and its y angle in .x (see C04::Wavefront.tilt.angles)
+            xa, ya = t.attrs['y'], t.attrs['x']
+            ctx.oblige(name % ('recorded_tilt_is_the_fitted_x_y[seg %d]' % k),
+                       S.and_(S.eq(xa, x_.at((1,))), S.eq(ya, x_.at((2,)))))
+            ramp = S.mul(S.add(S.mul(S.mul(xa, r), ps[0]), S.mul(S.mul(ya, S.neg(cc)), ps[1])), mk)
+            total_ramp = S.add(total_ramp, ramp)
+        if nseg == 1:
+            want = S.sub(opd0.at((i, j)), total_ramp)
+        else:
+            msum = 0
+            for k in range(nseg):
+                msum = S.add(msum, mask.at((k, i, j)))
+            want = S.sub(S.mul(opd0.at((i, j)), msum), total_ramp)
+        opd1 = A.as_array(ctx, res.attrs['_opd'])
+        with_hyp(ctx, inr, lambda: ctx.oblige(name % 'opd_plus_recorded_ramp_is_the_original_opd', S.eq(opd1.at((i, j)), want)))
+        return None
     return c
 
 
